@@ -9,13 +9,12 @@ L : laws with Fx tolerance TolGeom on straight AND curved second-order meshes: i
     (any order, repetitions, dtypes; call sequences on ONE mapping object, so the Jacobian cache is exercised).
 Every verdict by TLC: spec/TraceC10.tla -> Mappings.tla (GeomNum, Numeric, Fx).
 """
-import itertools
 import os
 
 import numpy as np
 
 from .. import universe as U
-from ..core import guarded
+from ..core import guarded, MachineryError
 from ..numeric import fx_req
 from ..project import exact_ints, find_scale, ids
 from .c02 import ORIENT_REV, SECOND, box_delaunay
@@ -50,7 +49,7 @@ def build_mesh(v):
             nv = int(np.max(m.t[:NV[kind]])) + 1
             for i in range(nv, P.shape[1]):                  # dyadic displacement of the non-vertex nodes
                 for c in range(P.shape[0]):
-                    P[c, i] += (((i * (c + 2) + int(v['curve'])) % 5) - 2) / 32.0
+                    P[c, i] += (((i * (c + 2) + int(v['curve'])) % 5) - 2) / 128.0
             m = replace(m, doflocs=P)
     return m
 
@@ -77,9 +76,9 @@ def fxa(a):
 
 
 def mesh_tables(mesh, kind, with_facets):
-    sc = find_scale(mesh.p, 5)
+    sc = find_scale(mesh.p, 8)
     if sc is None:
-        raise ValueError('coordinates not dyadic')
+        raise MachineryError('generated coordinates are not dyadic')
     p = [[int(x) for x in col] for col in np.rint(np.asarray(mesh.p) * sc).T]
     out = {'scale': int(sc), 'p': p, 'cells': ids(mesh.t[:NV[kind]])}
     rd = mesh.elem.refdom
@@ -304,8 +303,30 @@ def pair_events(v):
 
 
 # ------------------------------------------------------------------------------------------------ scenarios
+def refdom_event(v):
+    """The library's reference tables (refdom.py), exact integers."""
+    kind = v['kind']
+    ev = {'a': 'RefDom', 'kind': kind, 'err': '', 'refv': [], 'lf': [], 'normals': []}
+
+    def call():
+        from skfem import refdom as R
+        rd = {'line': R.RefLine, 'tri': R.RefTri, 'quad': R.RefQuad, 'tet': R.RefTet, 'hex': R.RefHex,
+              'wedge': R.RefWedge}[kind]
+        refv = exact_ints(np.asarray(rd.p, dtype=np.float64).T)
+        nrm = exact_ints(np.asarray(rd.normals, dtype=np.float64))
+        if refv is None or nrm is None:
+            raise ValueError('reference tables not integral')
+        ev.update(refv=refv, normals=nrm, lf=[[int(i) + 1 for i in f] for f in rd.facets])
+    _, err = guarded(call, 20)
+    if err:
+        ev['err'] = err
+    return ev
+
+
 def execute(rec):
     v = rec['v']
+    if rec['driver'] == 'refdom':
+        return [refdom_event(v)]
     if rec['driver'] == 'geom':
         evs = [geom_event(v)]
         if v['kind'] not in ('wedge',) and v.get('div', 1):
@@ -398,14 +419,14 @@ def generate(tier, seed):
             maps = ['default'] + (['iso'] if kind in P1 else [])
             for mpn in maps:
                 recs.append({'driver': 'geom', 'family': fam + suffix, 'v': vrec(kind, pp, tt, mpn)})
-        # second-order: straight and curved
+        # second-order: straight, and curved on the well-shaped lattice cells only (non-vertex nodes displaced by at
+        # most 1/64 of the unit cell, so that no cell folds: a folded cell legitimately breaks the laws)
         if kind in SECOND:
             recs.append({'driver': 'geom', 'family': fam + '-second', 'v': vrec(kind, p, t, 'default', second=1)})
-            for cv in ((1, 2, 3) if big else (1,)):
+            for cv in (((1, 2, 3) if big else (1,)) if fam in ('U2t', 'U2q', 'U3t', 'U3h') else ()):
                 recs.append({'driver': 'geom', 'family': fam + '-curved', 'v': vrec(kind, p, t, 'default', second=1, curve=cv)})
         # argument-shape laws: call sequences on one mapping object
         nt = t.shape[1]
-        nfx = None
         fns = ['F', 'DF', 'invDF', 'detDF']
         ffns = ['G', 'detDG'] if kind not in ('line', 'wedge') else []
 
@@ -435,7 +456,8 @@ def generate(tier, seed):
             p2, t2 = perturb_numbering(kind, p, t, rng, flip=True)
             recs.append({'driver': 'pair', 'family': fam + '-mirrored',
                          'v': vrec(kind, p2, t2, 'default', law='AffineEqualsIsoparametric')})
-    # the library's own default meshes, refined (dyadic coordinates)
+    for kind in ('line', 'tri', 'quad', 'tet', 'hex', 'wedge'):
+        recs.append({'driver': 'refdom', 'family': 'refdom', 'v': {'kind': kind, 'mapping': 'none'}})
     return recs
 
 
@@ -457,15 +479,18 @@ def run(ctx):
     if os.path.exists(os.path.join(os.path.dirname(__file__), '..', '..', 'spec', 'MC_C10.cfg')):
         ctx.model_must_hold('MC_C10', 'MC_C10.cfg', timeout=600, workers=4)
     recs = generate(ctx.tier, ctx.seed)
+    if ctx.tier == 'thorough':                      # further rounds: other random meshes, numberings, local orders
+        for k in (1, 2, 3):
+            recs += [r for r in generate(ctx.tier, ctx.seed + 1000 * k) if r['driver'] != 'refdom']
     scs = all_scenarios(recs)
-    ctx.validate('TraceC10', scs)
+    ctx.validate('TraceC10', scs, jvms=8 if ctx.tier == 'quick' else 16)
     import json
     ctx.notes['distinct_nontrivial'] = len({json.dumps(r, sort_keys=True) for r in recs})
-    ctx.notes['by_driver'] = {d: sum(1 for r in recs if r['driver'] == d) for d in ('geom', 'pair')}
+    ctx.notes['by_driver'] = {d: sum(1 for r in recs if r['driver'] == d) for d in ('geom', 'pair', 'refdom')}
     ctx.notes['tolerances'] = {'TolGeom': '2^-36 x (integer part of the compared numbers + 1), small integer factors per law'}
     return ctx.finish(rule=RULE, assumptions=[
         'reference points are dyadic (multiples of 1/8) at distance >= 1/8 from the cell boundary; Newton inversion is '
-        'only exercised on mildly curved / convex cells (second-order nodes displaced by <= 1/16 of a unit cell)',
+        'only exercised on mildly curved / convex cells (second-order nodes of unit lattice cells displaced by <= 1/64)',
         'the derivative of the map is taken from the recorded map by central differences, exact for maps of degree <= 2 '
         'per direction (all maps used here)',
         'prism meshes have no boundary reference cell in the library: only the cell clauses are checked on them',
